@@ -32,10 +32,10 @@ func init() {
 				if t == fw.Thorough {
 					return 2 * 69900
 				}
-				return 2*270 + 20000
+				return 2*270 + 100000
 			}, Run: c19Valid},
-			{Name: "invalid-values", N: fw.Const(2000, 100000), Run: c19Invalid},
-			{Name: "decoder-fuzz", N: fw.Const(3000, 300000), Run: c19Fuzz},
+			{Name: "invalid-values", N: fw.Const(10000, 200000), Run: c19Invalid},
+			{Name: "decoder-fuzz", N: fw.Const(15000, 400000), Run: c19Fuzz},
 		},
 	})
 }
